@@ -85,6 +85,8 @@ def theirs(src: str):
         n = pytoken.tok_name[t.type]
         if n in ("COMMENT", "NL"):
             continue
+        if n == "NAME" and not t.string.isidentifier():
+            return "inconsistent"  # the reference tokenizer is lenient: any non-ASCII character passes as NAME ('€')
         if n in ("NAME", "NUMBER", "STRING", "OP"):
             (l1, c1), (l2, c2) = t.start, t.end
             if l1 - 1 >= len(lines) or l2 - 1 >= len(lines) or src[offs[l1 - 1] + c1 : offs[l2 - 1] + c2] != t.string:
@@ -136,7 +138,7 @@ def check(rec, case):
         rec.exclude("f-string(C10)")
         return
     if b == "inconsistent":
-        rec.exclude("cpython-token-coordinates-contradict-its-own-text")
+        rec.exclude("cpython-token-contradicts-its-own-text-or-lexical-rules")
         return
     if case.get("need_valid"):
         ok = False
